@@ -77,8 +77,8 @@ def replay(w):
     entered = []
     form, c, desc = S.make_callables(shape, entered)[w['callable']]
     probe = SC.Probe(c, entered, desc)
-    args = tuple(S.Tok('p%d' % i) for i in range(w['nargs']))
-    kwi = [(n, S.Tok('kw-' + n)) for n in w['kwnames']]
+    args = tuple(S.pos_value(i) for i in range(w['nargs']))
+    kwi = [(n, S.kw_value(n)) for n in w['kwnames']]
     fn = SC.isvalid_c if w['fn'] == 'isvalid' else SC.validate_c
     try:
         fn(probe, args, kwi)
